@@ -92,3 +92,30 @@ M("C03", "set-position-moves-pc-for-ram", "a816/symbols.py", "        if physica
 M("C03", "label-node-writes-pc", NODES, "        self.resolver.current_scope.add_label(self.symbol_name, current_pc)\n        return current_pc", "        self.resolver.current_scope.add_label(self.symbol_name, current_pc)\n        self.resolver.pc = self.resolver.pc\n        return current_pc", "C03.R1")
 M("C03", "reloc-emit-other-target", NODES, "        self.resolver.set_position(self.pc_value_node.get_value())\n        # self", "        self.resolver.set_position(self.pc_value_node.get_value() & 0xFFFF)\n        # self", "C03.R3")
 M("C03", "nonempty-test-neutral", PROG, "        if len(current_block) > 0:\n            writer.write_block(current_block, current_block_addr)\n\n    def assemble_string", "        if current_block:\n            writer.write_block(current_block, current_block_addr)\n\n    def assemble_string", neutral=True)
+
+# ------------------------------------------------------------------ C11
+WR = "a816/writers.py"
+M("C11", "header-little-endian", WR, 'struct.pack(">BH", block_address >> 16, block_address & 0xFFFF)', 'struct.pack("<BH", block_address >> 16, block_address & 0xFFFF)', "C11.R1")
+M("C11", "length-of-whole-block", WR, "            self.write_block_header(block_slice, block_address)", "            self.write_block_header(block, block_address)", "C11.R2")
+M("C11", "slice-64k", WR, "slice_size = min(0xFFFF, len(block) - k)", "slice_size = min(0x10000, len(block) - k)", "C11.R2")
+M("C11", "forget-address-advance", WR, "            block_address += slice_size\n", "", "C11.R2")
+M("C11", "high-byte-masked", WR, "block_address >> 16, block_address & 0xFFFF", "(block_address >> 16) & 0xFF, block_address & 0xFFFF", "C11.R1")
+M("C11", "copier-0x100", WR, "block_address += 0x200", "block_address += 0x100", "C11.R3")
+M("C11", "copier-always", WR, "        if self._copier_header:\n            block_address += 0x200", "        if self._copier_header is not None:\n            block_address += 0x200", "C11.R3")
+M("C11", "revert-eof-offset-check", WR, '        if block_address == 0x454F46:\n            raise ValueError("IPS cannot encode a record at offset 0x454F46 (reads as the EOF marker).")\n', "", "C11.R4")
+M("C11", "eof-check-before-delta", WR, '        if self._copier_header:\n            block_address += 0x200\n        if block_address == 0x454F46:\n            raise ValueError("IPS cannot encode a record at offset 0x454F46 (reads as the EOF marker).")\n',
+  '        if block_address == 0x454F46:\n            raise ValueError("IPS cannot encode a record at offset 0x454F46 (reads as the EOF marker).")\n        if self._copier_header:\n            block_address += 0x200\n', "C11.R4")
+M("C11", "end-writes-eof-twice", WR, '        self.file.write(b"EOF")', '        self.file.write(b"EOF")\n        self.file.write(b"EOF")', "C11.R1")
+M("C11", "guard-form-neutral", WR, "while block[k:]:", "while k < len(block):", neutral=True)
+
+# ------------------------------------------------------------------ C13
+M("C13", "revert-rle-arm", NODES, "                if block_size == 0:\n                    # run-length record: 2-byte count then the byte to repeat.\n                    rle_count, rle_value = struct.unpack(\">HB\", ips_file.read(3))\n                    block = bytes([rle_value]) * rle_count\n                else:\n                    block = ips_file.read(block_size)\n",
+  "                block = ips_file.read(block_size)\n", "C13.R1")
+M("C13", "rle-count-little-endian", NODES, 'rle_count, rle_value = struct.unpack(">HB", ips_file.read(3))', 'rle_count, rle_value = struct.unpack("<HB", ips_file.read(3))', "C13.R")
+M("C13", "offset-little-endian", NODES, 'struct.unpack(">BH", ips_file.read(3))', 'struct.unpack("<BH", ips_file.read(3))', "C13.R2")
+M("C13", "delta-subtracted", NODES, "block_addr += self.delta", "block_addr -= self.delta", "C13.R3")
+M("C13", "emit-args-swapped", PROG, "writer.write_block(block, block_addr)", "writer.write_block(block_addr, block)", "C13.R3")
+M("C13", "break-on-short-header", NODES, '                block_addr_bytes = struct.unpack(">BH", ips_file.read(3))', '                header = ips_file.read(3)\n                if len(header) < 3:\n                    break\n                block_addr_bytes = struct.unpack(">BH", header)', "C13.R2")
+M("C13", "missing-magic-accepted", NODES, "                raise RuntimeError(f'{self.ips_file_path} is missing \"PATCH\" header')", "                logger.warning(f'{self.ips_file_path} is missing \"PATCH\" header')", "C13.R2")
+M("C13", "ips-blocks-appended-to-block", PROG, "                for block_addr, block in node.blocks:\n                    writer.write_block(block, block_addr)", "                for block_addr, block in node.blocks:\n                    writer.write_block(block, block_addr)\n                    current_block_addr = block_addr", "C13.R3")
+M("C13", "delta-dropped-in-codegen", CG, "return [IncludeIpsNode(node.file_path, resolver, node.expression)]", "return [IncludeIpsNode(node.file_path, resolver)]", "C13.R4")
